@@ -148,6 +148,17 @@ def ownership(ctx, rep, rule: str, classes: list[str]) -> None:
                 assigned = [n for n in A.walk_no_nested(init.node) if isinstance(n, ast.Assign) and isinstance(n.targets[0], ast.Name) and isinstance(src, ast.Name) and n.targets[0].id == src.id and isinstance(n.value, ast.Call) and isinstance(n.value.func, ast.Attribute) and n.value.func.attr == "_distribute_buffer_sizes"]
                 ok = isinstance(tgt, ast.Tuple) and len(tgt.elts) == 2 and isinstance(gen.elt, ast.Name) and isinstance(tgt.elts[1], ast.Name) and gen.elt.id == tgt.elts[1].id and len(assigned) == 1
         rep.ob(rule, f"ownership:{ci.name}:owners-from-assignment", ok, init.loc(gl[0]) if gl else init.loc(), "group_source_ranks must be the second component of _distribute_buffer_sizes' result", sample=True)
+        # one assignment decides both who owns a block and where its buffer lies
+        acalls = [c for c in A.calls(init.node, nested=True) if isinstance(c.func, ast.Attribute) and c.func.attr == "_distribute_buffer_sizes"]
+        cdb = [c for c in A.calls(init.node) if isinstance(c.func, ast.Attribute) and c.func.attr == "_construct_distributed_buffers"]
+        same = False
+        if len(acalls) == 1 and len(cdb) == 1 and len(gl) == 1:
+            st = A.stmt_of(init.node, acalls[0])
+            var = st.targets[0].id if isinstance(st, ast.Assign) and isinstance(st.targets[0], ast.Name) and st.value is acalls[0] else None
+            layout = A.keyword(cdb[0], "buffer_size_ranks")
+            owners = A.keyword(gl[0], "group_source_ranks")
+            same = var is not None and isinstance(layout, ast.Name) and layout.id == var and owners is not None and var in A.names_in(owners)
+        rep.ob(rule, f"ownership:{ci.name}:one-assignment-for-owners-and-buffer-layout", same, init.loc(acalls[0]) if acalls else init.loc(), f"{len(acalls)} call(s) of _distribute_buffer_sizes in the constructor; the single result must feed both the owner ranks and the buffer layout (otherwise an owner writes into another rank's segment of the gather buffer)", sample=True)
         # the local lists are the selector-compressed global lists (not the global ones)
         for attr in ("_local_blocked_params", "_local_block_info_list"):
             t = sp.attr.get((cq, attr))
@@ -201,8 +212,8 @@ def run(ctx, rep) -> None:
     rep.rule("C14.2", "state lives only on the owner: selector = assigned rank == rank in the communication group; owners come from the assignment; allocation iterates local lists")
     rep.rule("C14.3", "the DDP / HSDP / HybridShard copies of the assignment and buffer code agree")
     rep.rule("C14.4", "per-block buffers are views of the one gather buffer; the local send buffer is the rank's own split; size expressions agree")
-    assignment_determinism(ctx, rep, "C14.1", COPIES)
-    ownership(ctx, rep, "C14.2", COPIES)
-    sibling_pairs(ctx, rep, "C14.3", dist_pairs())
-    buffer_views(ctx, rep, "C14.4", COPIES)
+    rep.attempt("assignment_determinism", assignment_determinism, ctx, rep, "C14.1", COPIES)
+    rep.attempt("ownership", ownership, ctx, rep, "C14.2", COPIES)
+    rep.attempt("sibling_pairs", sibling_pairs, ctx, rep, "C14.3", dist_pairs())
+    rep.attempt("buffer_views", buffer_views, ctx, rep, "C14.4", COPIES)
     rep.assume("the 4/3 bound, load-difference bound, 64-byte alignment arithmetic and non-overlap of offsets (integer arithmetic over all size sequences) are NOT decided")
